@@ -5,6 +5,7 @@
 (* after the last frame (CutBoundary) and inside the last frame (CutIn).      *)
 EXTENDS MC_WsReader, TLC, Json
 
+CONSTANTS JudgeRsv1NonFirst   \* see Judged
 CONSTANTS Family     \* "framing" | "more" | "limit" | "sizes" | "seq" | "header" | "bufsize" | "bufsizes" | "sim"
 
 VARIABLE hist        \* <<step records>>
@@ -16,19 +17,26 @@ SimAlpha(r, L) == LET m == M(r)  B == IF L > 0 THEN L ELSE 300 IN
   { Fr(op, fin, 0, m, Lengths(v)) : op \in (IF open = 0 THEN {1, 2} ELSE {0}), fin \in BOOLEAN,
        v \in {0, 1, RandomElement(0..B), RandomElement(0..(B \div 3)), RandomElement(0..(B \div 8))} } \cup
   { Fr(op, TRUE, 0, m, Lengths(v)) : op \in {9, 10}, v \in {0, 125, RandomElement(1..124)} } \cup
+  (IF pmd /\ open = 0 THEN { Fr(op, fin, 4, m, Lengths(v)) : op \in {1, 2}, fin \in BOOLEAN, v \in {6, RandomElement(6..(B + 6))} } ELSE {}) \cup
   (IF RandomElement(1..4) = 1
    THEN { RandomElement(BadFrames(r) \cup MoreFrames(r) \cup GoodCtl(r) \cup GoodData(r)) } ELSE {})
 
-GenAlpha(r, L) ==
+\* RSV1 alone on a control or continuation frame with the extension negotiated: judged (RFC 7692 6: fail) unless the
+\* family's cfg says otherwise
+Judged(A) == IF JudgeRsv1NonFirst THEN A ELSE {f \in A : ~(pmd /\ f.rsv = 4 /\ f.op \in {0, 8, 9, 10})}
+
+GenAlphaRaw(r, L) ==
   CASE Family = "framing" -> Framing(r)
     [] Family = "more"    -> Framing(r) \cup MoreFrames(r)
     [] Family = "limit"   -> LimAlpha(r, L)
     [] Family = "sizes"   -> SizeAlpha(r, L)
     [] Family = "seq"     -> SeqAlpha(r, L)
-    [] Family = "header"  -> McHeader(r, L)
+    [] Family = "header"  -> Judged(McHeader(r, L))
     [] Family = "bufsize" -> BufAlphaThin(r, bufsize)
     [] Family = "bufsizes" -> BufAlpha(r, bufsize)
+    [] Family = "pmd"     -> Judged(PmdAlpha(r, L))
     [] Family = "sim"     -> SimAlpha(r, L)
+GenAlpha(r, L) == {ZFix(f) : f \in GenAlphaRaw(r, L)}     \* compressed messages are DEFLATE streams
 
 \* how the close frame of an outcome class is judged: "must" / "may" be written; code 0: not judged
 Outcome(c) ==
@@ -46,6 +54,8 @@ StepRec(f) ==
     k    |-> IF f.masked THEN MaskKey(n') ELSE <<>>,
     p    |-> PayloadLD(f, n'),
     op   |-> f.op,
+    fin  |-> f.fin,
+    z1   |-> pmd /\ Rsv1(f),               \* the sender marks the frame "per-message compressed"
     big  |-> f.len.big,
     abs  |-> Absorbing,                       \* the frame is sent into a reader that has already failed / is inside a giant frame
     cut  |-> {Outcome(c) : c \in CutClasses(f)},   \* stream ends inside this frame
@@ -70,13 +80,13 @@ SimNext ==
   ELSE GenNext
 
 CaseOf ==
-  [ role |-> role, limit |-> limit, fam |-> Family,
+  [ role |-> role, limit |-> limit, fam |-> Family, pmd |-> pmd,
     \* the configured read buffer: a dimension of the case where the family has one (bufdim), otherwise the replayer
     \* sweeps it on its own - the expectation below never depends on it
     bufsize |-> bufsize, bufdim |-> Cardinality(BufSizes) > 1,
     steps |-> [i \in 1..Len(hist) |-> IF i = Len(hist) THEN hist[i] ELSE [hist[i] EXCEPT !.cut = {}]],   \* cuts: last frame only
     delivered |-> [i \in 1..Len(delivered) |->
-                     [type |-> delivered[i].type, len |-> delivered[i].len,
+                     [type |-> delivered[i].type, len |-> delivered[i].len, z |-> delivered[i].z,
                       frags |-> [j \in 1..Len(delivered[i].frags) |-> [n |-> delivered[i].frags[j].n, id |-> delivered[i].frags[j].id]]]],
     pongs |-> [i \in 1..Len(Pongs(back)) |-> [n |-> Pongs(back)[i].n, id |-> Pongs(back)[i].id]],
     failed |-> failed,
